@@ -212,6 +212,9 @@ SPECIAL = {
     'Fq12.pow': POW_PROOF,
     **lib_proofs('LibG1'), **lib_proofs('LibG2'),
     'Pairings.bit': 'funext n pos; exact bit_equiv n pos',
+    'Pairings.pairing': '''first
+  | equiv_rfl
+  | (funext p q; unfold Sm9.Gen.Pairings.pairing Sm9.Pairings.pairing; cases p.to_affine <;> cases q.to_affine <;> rfl)''',
     'G2Prepared.from': FROM_PROOF,
     'G2Prepared.miller_loop': MILLER_PROOF,
     'G1.add': ADD_PROOF.format(ns='G1', one='(1 : Fq)'),
